@@ -444,7 +444,9 @@ func runSpec(s *Spec, sched func(soloSteps int64), rl *raceLog) *RunResult {
 		}
 	}
 
+	progressBump()
 	pool := buildPool(s, &bs)
+	progressBump()
 	st.BuildErrors = bs.errors
 	budget := 10*soloSteps + 1_000_000
 	before := rl.errors()
@@ -461,6 +463,7 @@ func runSpec(s *Spec, sched func(soloSteps int64), rl *raceLog) *RunResult {
 	st.Stray = vst.Stray
 	st.SoloRes, st.SimRes = solo, sim
 
+	progressBump()
 	rr.skip, rr.kinds = skip, kinds
 	rr.Violations = compare(s, kinds, solo, sim, skip, vst.Deadlock, st)
 	st.Blocked = vst.Blocked
@@ -603,7 +606,9 @@ func auditHistory(s *Spec, rr *RunResult, nsites int, tmpDir string) ([]Violatio
 	defer os.Remove(p)
 	cmd := exec.Command(os.Args[0], "audit", "-in", p, "-sites", fmt.Sprint(nsites))
 	cmd.Env = append(filterEnv(os.Environ(), "GORACE"), "GORACE=halt_on_error=0 exitcode=0 atexit_sleep_ms=0")
+	externalBegin()
 	outb, err := cmd.Output()
+	externalEnd()
 	if err != nil {
 		return nil, fmt.Errorf("audit subprocess: %v", err)
 	}
@@ -655,7 +660,9 @@ func aloneInFreshProcess(s *Spec, t, i int, nsites int, tmpDir string) string {
 	defer os.Remove(p)
 	cmd := exec.Command(os.Args[0], "audit", "-in", p, "-sites", fmt.Sprint(nsites))
 	cmd.Env = append(filterEnv(os.Environ(), "GORACE"), "GORACE=halt_on_error=0 exitcode=0 atexit_sleep_ms=0")
+	externalBegin()
 	outb, err := cmd.Output()
+	externalEnd()
 	if err != nil {
 		return ""
 	}
